@@ -22,6 +22,7 @@ var (
 	want            = []byte("want ")
 	shallow         = []byte("shallow ")
 	deepen          = []byte("deepen")
+	filterSpec      = []byte("filter ")
 	deepenCommits   = []byte("deepen ")
 	deepenSince     = []byte("deepen-since ")
 	deepenReference = []byte("deepen-not ")
